@@ -26,7 +26,7 @@ ZERO_MODES = ["none", "none", "none", "row0", "row1", "col0", "col1", "all", "di
 def _cases(draw):
     lead = draw(st.sampled_from(LEADS))
     n = gen.shape_size(lead)
-    dtype = draw(st.sampled_from(["int", "int", "float", "float", "uint8", "int16", "uint16", "int32", "float32"]))
+    dtype = draw(st.sampled_from(["int", "int", "float", "float", "uint8", "int16", "uint16", "int32", "float32", "uint64"]))
     if dtype in _NARROW:
         # counts stored in a narrow integer dtype; single cells up to its maximum, so that sums
         # of two cells (and the trace) exceed it while every cell fits
@@ -35,10 +35,14 @@ def _cases(draw):
     elif dtype == "float32":
         cell = st.one_of(st.just(0.0), st.integers(0, 4000).map(lambda k: k * 0.25))  # exact in float32
     else:
-        cell = _INT_CELL if dtype == "int" else _FLT_CELL
+        cell = _FLT_CELL if dtype == "float" else _INT_CELL
     mats = []
     for _ in range(n):
         m = draw(st.lists(cell, min_size=4, max_size=4))
+        if dtype == "uint64":
+            # one cell beyond the int64 range, every sum (incl. the population) within uint64
+            m = [min(v, 2**40) for v in m]
+            m[draw(st.integers(0, 3))] = draw(st.integers(2**63, 2**63 + 2**62))
         z = draw(st.sampled_from(ZERO_MODES))
         zero = 0.0 if dtype in ("float", "float32") else 0
         idx = {"none": [], "row0": [0, 1], "row1": [2, 3], "col0": [0, 2], "col1": [1, 3],
@@ -50,7 +54,8 @@ def _cases(draw):
                    st.sampled_from([1e-9, 1e-12, 1e-13, 1e-15, 1e-16, 1e-18, 1e-40, 1e-300, 1 - 1e-12]))
     a1 = draw(al)
     a2 = draw(al)
-    return dict(lead=list(lead), dtype=dtype, mats=mats, alpha=sorted([a1, a2]))
+    return dict(lead=list(lead), dtype=dtype, mats=mats, alpha=sorted([a1, a2]),
+                alpha_kind=draw(st.sampled_from(["py", "py", "np", "0d"])))
 
 
 RATES = {
@@ -86,15 +91,26 @@ def check(case):
     from score_analysis import ConfusionMatrix, metrics
 
     lead = tuple(case["lead"])
-    exact = case["dtype"] not in ("float", "float32")
+    exact_counts = case["dtype"] not in ("float", "float32")
+    # integer counts are compared exactly; rates exactly as long as every count converts to a
+    # float without rounding (beyond 2^53 the conversion of numerator and denominator rounds)
+    exact = exact_counts and all(sum(m_) < 2**53 for m_ in case["mats"])
     # single-precision matrices give single-precision rates
     rt, ct = (2e-6, 1e-5) if case["dtype"] == "float32" else (1e-12, 1e-9)
+    if exact_counts and not exact:
+        rt = 1e-15
     dt = {"int": np.int64, "float": np.float64}.get(case["dtype"]) or np.dtype(case["dtype"])
     mats = case["mats"]
     M = np.asarray(mats, dtype=dt).reshape(lead + (2, 2))
     M0 = M.copy()
     cmo = ConfusionMatrix(matrix=M, binary=True)
     a1, a2 = case["alpha"]
+    a1_val, a2_val = a1, a2
+    if case.get("alpha_kind") == "np":
+        a1, a2 = np.float64(a1), np.float64(a2)
+    elif case.get("alpha_kind") == "0d":
+        # one array object per significance level, handed to every call (as read from a config array)
+        a1, a2 = np.asarray(a1), np.asarray(a2)
 
     def flat(v, extra=()):
         v = np.asarray(v, dtype=float)
@@ -128,7 +144,9 @@ def check(case):
                 and np.array_equal(flat(getattr(metrics, al)(M, a2), (2,)), cis[k][1], equal_nan=True),
                 "alg:alias", f"{al} with positional alpha={a2!r}")
     # upper alpha/2 quantile through the lower tail (1 - alpha/2 would round for tiny alpha)
-    z1, z2 = -norm_ppf(a1 / 2), -norm_ppf(a2 / 2)
+    z1, z2 = -norm_ppf(a1_val / 2), -norm_ppf(a2_val / 2)
+    require(float(a1) == a1_val and float(a2) == a2_val, "alg:mutated-input",
+            f"alpha changed from {a1_val!r}, {a2_val!r} to {float(a1)!r}, {float(a2)!r}")
 
     zero_den = nonzero_den = False
     for i, (tp, fn, fp, tn) in enumerate(mats):
@@ -136,9 +154,9 @@ def check(case):
         ref = dict(tp=tp, fn=fn, fp=fp, tn=tn, p=tp + fn, n=fp + tn, top=tp + fp, ton=fn + tn,
                    pop=tp + fn + fp + tn)
         for k, v in ref.items():
-            require(_close(float(cnt[k][i]), float(v), exact, rt), "alg:count", f"{k} {ctx}: {cnt[k][i]!r}")
-        require(_close(cnt["p"][i] + cnt["n"][i], cnt["pop"][i], exact, rt)
-                and _close(cnt["top"][i] + cnt["ton"][i], cnt["pop"][i], exact, rt),
+            require(_close(float(cnt[k][i]), float(v), exact_counts, rt), "alg:count", f"{k} {ctx}: {cnt[k][i]!r}")
+        require(_close(cnt["p"][i] + cnt["n"][i], cnt["pop"][i], exact, max(rt, 1e-15))
+                and _close(cnt["top"][i] + cnt["ton"][i], cnt["pop"][i], exact, max(rt, 1e-15)),
                 "alg:population", ctx)
         for k, (num, den) in RATES.items():
             d = den(tp, fn, fp, tn)
